@@ -15,9 +15,32 @@ pub struct Case {
     /// (method index, start position, end position)
     pub reqs: Vec<(u8, PosSel, PosSel)>,
     pub std_lib: bool,
+    /// per request: the optional `context` of completion / signatureHelp (0 = absent; see `with_context`)
+    #[serde(default)]
+    pub ctxs: Vec<u8>,
 }
 
 pub struct C25;
+
+/// all registered methods, completion and signature help (the trigger-driven ones) three times as likely
+fn method_idx() -> BoxedStrategy<u8> {
+    let trig: Vec<u8> = METHODS.iter().enumerate().filter(|(_, m)| matches!(m.name, "textDocument/completion" | "textDocument/signatureHelp")).map(|(i, _)| i as u8).collect();
+    prop_oneof![8 => 0u8..METHODS.len() as u8, 2 => proptest::sample::select(trig)].boxed()
+}
+
+/// the optional request context a client sends with completion / signatureHelp: how the request was triggered
+fn with_context(method: &str, params: &mut serde_json::Value, k: u8) {
+    let ch = docgen::TRIGGER_CHARS[(k as usize / 4) % 14]; // the single-character entries
+    match (method, k % 4) {
+        ("textDocument/completion", 1) => params["context"] = serde_json::json!({"triggerKind": 1}),
+        ("textDocument/completion", 2) => params["context"] = serde_json::json!({"triggerKind": 2, "triggerCharacter": ch}),
+        ("textDocument/completion", 3) => params["context"] = serde_json::json!({"triggerKind": 3}),
+        ("textDocument/signatureHelp", 1) => params["context"] = serde_json::json!({"triggerKind": 1, "isRetrigger": false}),
+        ("textDocument/signatureHelp", 2) => params["context"] = serde_json::json!({"triggerKind": 2, "triggerCharacter": ch, "isRetrigger": k >= 128}),
+        ("textDocument/signatureHelp", 3) => params["context"] = serde_json::json!({"triggerKind": 3, "isRetrigger": k >= 128}),
+        _ => {}
+    }
+}
 
 impl Property for C25 {
     type Case = Case;
@@ -26,7 +49,7 @@ impl Property for C25 {
         "C25"
     }
     fn rule(&self) -> String {
-        "cases = one open document (generated valid Lua / annotated snippets and their mutations / token soup / windows of std/*.lua) x 8-40 requests drawn from all 38 registered request methods with positions and ranges resolved against the document: every class of char-boundary offset, line ends, characters past the end of a line, lines past the end of the document, 10^6 and u32::MAX; played through the real dispatcher in-process; oracle = after quiescence every request has exactly one response and no server task panicked; non-trivial = at least one request with a position beyond a line end or the document end, or a document with syntax errors".into()
+        "cases = one open document (generated valid Lua / annotated snippets and their mutations / token soup / windows of std/*.lua / tails of those cut at any char boundary / documents starting with a trigger character) x 8-40 requests drawn from all 38 registered request methods with positions and ranges resolved against the document: every class of char-boundary offset, line ends, characters past the end of a line, lines past the end of the document, 10^6 and u32::MAX, the first bytes of the document; completion and signatureHelp also with every kind of trigger context; played through the real dispatcher in-process; oracle = after quiescence every request has exactly one response and no server task panicked; non-trivial = at least one request with a position beyond a line end or the document end, or a document with syntax errors".into()
     }
     fn assumptions(&self) -> Vec<String> {
         vec!["a crashed handler task is observed as a recorded panic plus a missing response (the dispatcher spawns one task per request)".into()]
@@ -36,11 +59,12 @@ impl Property for C25 {
     }
     fn strategy(&self, tier: Tier) -> BoxedStrategy<Case> {
         (
-            docgen::document(tier),
-            proptest::collection::vec((0u8..METHODS.len() as u8, docgen::pos_sel(), docgen::pos_sel()), 8..tier.pick(40, 80)),
+            docgen::document_typed(tier),
+            proptest::collection::vec((method_idx(), docgen::pos_sel(), docgen::pos_sel()), 8..tier.pick(40, 80)),
             proptest::bool::weighted(0.1),
+            proptest::collection::vec(any::<u8>(), 80),
         )
-            .prop_map(|((text, src), reqs, std_lib)| Case { text, src, reqs, std_lib })
+            .prop_map(|((text, src), reqs, std_lib, ctxs)| Case { text, src, reqs, std_lib, ctxs })
             .boxed()
     }
     fn simplify(&self, c: &Case) -> Vec<Case> {
@@ -49,7 +73,11 @@ impl Property for C25 {
             for i in 0..c.reqs.len() {
                 let mut r = c.reqs.clone();
                 r.remove(i);
-                out.push(Case { reqs: r, ..c.clone() });
+                let mut x = c.ctxs.clone();
+                if i < x.len() {
+                    x.remove(i);
+                }
+                out.push(Case { reqs: r, ctxs: x, ..c.clone() });
             }
         }
         out.extend(crate::gens::util::text_simplify(&c.text).into_iter().take(60).map(|t| Case { text: t, ..c.clone() }));
@@ -81,7 +109,8 @@ impl Property for C25 {
                 nontrivial = true;
                 obs.class("out-of-range-position");
             }
-            let params = valid_params(method.name, &uri, l1, c1, l2, c2);
+            let mut params = valid_params(method.name, &uri, l1, c1, l2, c2);
+            with_context(method.name, &mut params, c.ctxs.get(i).copied().unwrap_or(0));
             let id = i as i32 + 1;
             sent.push((id, method.name, (l1, c1), (l2, c2)));
             ls.request(id.into(), method.name, params);
